@@ -111,3 +111,93 @@ def random_valid_slits(rng, K, n):
 
 def spans_tdc(slits, K) -> bool:
     return any(s[1] > K for s in slits)
+
+
+class Background:
+    """Run the exhaustive TLC checks in a thread while the replays run; errors resurface in join()."""
+
+    def __init__(self, fn):
+        import threading
+
+        self.exc = None
+
+        def wrap():
+            try:
+                fn()
+            except BaseException as e:  # noqa: BLE001
+                self.exc = e
+
+        self.t = threading.Thread(target=wrap, daemon=True)
+        self.t.start()
+
+    def __enter__(self):
+        return self
+
+    def __exit__(self, etype, evalue, tb):
+        self.t.join()            # never leave a TLC process behind
+        if etype is None and self.exc is not None:
+            raise self.exc
+        return False
+
+
+class Collector:
+    """What a replay worker process reports back: events for the trace judge, violations, case counts."""
+
+    def __init__(self):
+        self.events, self.info, self.violations, self.cases = [], [], [], []
+        self._nkey = {}
+        self.counters = {}
+
+    def add(self, ev, info):
+        self.events.append(ev)
+        self.info.append(info)
+
+    def violation(self, key, detail=None):
+        n = self._nkey.get(key, 0)
+        self._nkey[key] = n + 1
+        self.violations.append((key, detail if n < 5 else None))
+
+    def case(self, nontrivial_id=None, n=1):
+        self.cases.append(nontrivial_id)
+
+    def count(self, name, inc=1):
+        self.counters[name] = self.counters.get(name, 0) + inc
+
+    def export(self):
+        return {'events': self.events, 'info': self.info, 'violations': self.violations, 'cases': self.cases,
+                'counters': self.counters}
+
+
+def merge_results(ctx, results):
+    """Concatenate worker results in task order; returns (events, info, counters)."""
+    events, info, counters = [], [], {}
+    for r in results:
+        for ev, inf in zip(r['events'], r['info']):
+            ev['tid'] = len(events)
+            events.append(ev)
+            info.append(inf)
+        for key, detail in r['violations']:
+            ctx.violation(key, detail or {})
+        for c in r['cases']:
+            ctx.case(nontrivial_id=c)
+        for k, v in r['counters'].items():
+            counters[k] = counters.get(k, 0) + v
+    return events, info, counters
+
+
+def run_chunks(fn, chunks, procs):
+    """fn(chunk) for every chunk, each in a freshly spawned process, results in order.
+
+    Fresh processes are needed, not only wanted for speed: scipp keeps a process-wide table of at most 64536
+    dimension labels and DiskChopper.time_offset_* registers a new uuid label on every call, so a single process
+    can make only that many calls before every further one raises RuntimeError."""
+    import multiprocessing as mp
+
+    if not chunks:
+        return []
+    with mp.get_context('spawn').Pool(processes=max(1, min(procs, len(chunks))), maxtasksperchild=1) as pool:
+        return pool.map(fn, chunks, chunksize=1)
+
+
+def chunked(tasks, size):
+    return [tasks[i:i + size] for i in range(0, len(tasks), size)]
